@@ -211,6 +211,9 @@ def check_contract_case(args):
         vm = T._vm()
         for prof in c.profiles:
             built = T._G['builds'].get((ci, prof))
+            if built is not None and getattr(built, 'timed_out', False):
+                res['unexplored'].append(f'{prof}: build timed out')
+                continue
             if built is None or not built.ok:
                 res['violations'].append({'what': 'valid program does not compile', 'variant': prof, 'log': (built.log[-600:] if built else '')})
                 continue
